@@ -32,6 +32,8 @@ ENTRIES = ["str", "str_nl", "list", "file_lf", "file_crlf", "file_nonl", "file_p
 def gen(streams, tier, i):
     cfg = streams.get("config")
     k = G.swarm_knobs(cfg)
+    k["taglike_seq"] = True
+    k["ln_tag"] = True
     k["p_tags"] = cfg.choice([0.5, 0.9])
     k["max_tags"] = cfg.choice([2, 4])
     k["canonical"] = cfg.random() < 0.6
